@@ -5,17 +5,56 @@ import GSProofs.Lemmas.MsgQueueAtt1
 namespace GS.MQ
 open GS.Alloc
 
-def AttQ (u : Sub) (t : Nat) (s : State) : Prop := ∃ b ∈ s.builders, AttB u t b
+def AttQ (u : Sub) (t : Nat) (r : Req) (s : State) : Prop := ∃ b ∈ s.builders, AttB u t r b
 
-/-- an Error for a request whose subscriber is `u` has been delivered to `u` (and that request's
-    response stream is closed) -/
-def ErrSeen (f : Req → Sub) (u : Sub) (s : State) : Prop :=
-  ∃ r ∈ s.closedStreams, f r = u ∧ ∃ t' : Nat, Kind.error ∈ seqOf u t' s.log
+/-- the number of `Error` notifications delivered to `u` so far (on any topic) -/
+def errCount (u : Sub) : List Event → Nat
+  | [] => 0
+  | .notify u' _ k :: l => (if u' = u ∧ k = Kind.error then 1 else 0) + errCount u l
+  | _ :: l => errCount u l
 
-/-- `u` is still attached to queued message `t`, or has been told something about it, or has been told
-    that a request of its failed -/
-def W (f : Req → Sub) (u : Sub) (t : Nat) (s : State) : Prop :=
-  AttQ u t s ∨ seqOf u t s.log ≠ [] ∨ ErrSeen f u s
+theorem errCount_append (u : Sub) (a b : List Event) : errCount u (a ++ b) = errCount u a + errCount u b := by
+  induction a with
+  | nil => simp [errCount]
+  | cons e r ih =>
+    cases e <;> simp only [List.cons_append, errCount, ih]
+    omega
+
+theorem errCount_pos_of_seq (u : Sub) (t : Topic) : ∀ (X : List Event), Kind.error ∈ seqOf u t X → 0 < errCount u X
+  | [], h => by simp [seqOf] at h
+  | e :: r, h => by
+    cases e with
+    | notify u' t' k =>
+      simp only [seqOf] at h
+      simp only [errCount]
+      split at h
+      · next hc =>
+        rcases List.mem_cons.mp h with h | h
+        · rw [if_pos ⟨hc.1, h.symm⟩]; omega
+        · have := errCount_pos_of_seq u t r h; omega
+      · have := errCount_pos_of_seq u t r h; omega
+    | wire _ _ => exact errCount_pos_of_seq u t r (by simpa [seqOf] using h)
+    | streamClosed _ => exact errCount_pos_of_seq u t r (by simpa [seqOf] using h)
+    | mem _ => exact errCount_pos_of_seq u t r (by simpa [seqOf] using h)
+    | built _ _ _ _ => exact errCount_pos_of_seq u t r (by simpa [seqOf] using h)
+    | dropped _ => exact errCount_pos_of_seq u t r (by simpa [seqOf] using h)
+    | senderClosed => exact errCount_pos_of_seq u t r (by simpa [seqOf] using h)
+    | exitCallback => exact errCount_pos_of_seq u t r (by simpa [seqOf] using h)
+
+theorem errCount_mono {s s' : State} (h : ∃ X, s'.log = s.log ++ X) (u : Sub) : errCount u s.log ≤ errCount u s'.log := by
+  obtain ⟨X, hx⟩ := h
+  rw [hx, errCount_append]; omega
+
+/-- the response stream of request `r` has been closed and `u` has been delivered an `Error` after
+    the moment at which it had received `n0` of them -/
+def ErrSeen (r : Req) (u : Sub) (n0 : Nat) (s : State) : Prop :=
+  r ∈ s.closedStreams ∧ n0 < errCount u s.log
+
+/-- `u` is still attached to queued message `t` through request `r`, or has been told something about
+    message `t`, or -- after the moment at which it had received `n0` Errors -- has been told that
+    request `r` failed -/
+def W (u : Sub) (t : Nat) (r : Req) (n0 : Nat) (s : State) : Prop :=
+  (AttQ u t r s ∧ n0 ≤ errCount u s.log) ∨ seqOf u t s.log ≠ [] ∨ ErrSeen r u n0 s
 
 structure AI (f : Req → Sub) (s : State) : Prop where
   bfun : ∀ b ∈ s.builders, BFun f b
@@ -30,10 +69,9 @@ theorem seq_mono {s s' : State} (h : ∃ X, s'.log = s.log ++ X) (u : Sub) (t : 
   · intro h1 h2; apply h1; exact (List.append_eq_nil_iff.mp h2).1
   · intro k hk; exact List.mem_append_left _ hk
 
-theorem ErrSeen.mono {f : Req → Sub} {u : Sub} {s s' : State} (h : ErrSeen f u s)
-    (hc : ∀ r ∈ s.closedStreams, r ∈ s'.closedStreams) (hl : ∃ X, s'.log = s.log ++ X) : ErrSeen f u s' := by
-  obtain ⟨r, hr, hf, t', ht'⟩ := h
-  exact ⟨r, hc r hr, hf, t', (seq_mono hl u t').2 _ ht'⟩
+theorem ErrSeen.mono {r : Req} {u : Sub} {n0 : Nat} {s s' : State} (h : ErrSeen r u n0 s)
+    (hc : ∀ r ∈ s.closedStreams, r ∈ s'.closedStreams) (hl : ∃ X, s'.log = s.log ++ X) : ErrSeen r u n0 s' :=
+  ⟨hc r h.1, Nat.lt_of_lt_of_le h.2 (errCount_mono hl u)⟩
 
 /-- waiters: who waits for what is unchanged -/
 def WCore (s s' : State) : Prop := s'.waiters.map Waiter.core = s.waiters.map Waiter.core
@@ -137,22 +175,28 @@ theorem scrubAll_bfun (f : Req → Sub) (reqs : List Req) (bs : List Builder) (h
 theorem publishError_att (pick : Pick) (f : Req → Sub) {s : State} {m : InFlight} {U : List Sub} {σ : List Kind} {b : Bool}
     (hm : Mid s m U σ b) (hb : ∀ x ∈ s.builders, BFun f x) (hU : ∀ r ∈ m.streams, f r ∈ U) :
     (∀ x ∈ (s.publishError pick m).builders, BFun f x) ∧
-    (∀ u t, AttQ u t s → AttQ u t (s.publishError pick m) ∨ ErrSeen f u (s.publishError pick m)) := by
+    (∀ u t r, AttQ u t r s → AttQ u t r (s.publishError pick m) ∨
+      (r ∈ (s.publishError pick m).closedStreams ∧ errCount u s.log < errCount u (s.publishError pick m).log)) := by
   have hsh := publishError_shape pick s m
   have hcl := publishError_closed pick s m
   have hmid := hm.publishError pick
   refine ⟨by rw [hsh.1]; exact scrubAll_bfun f _ _ hb, ?_⟩
-  intro u t ⟨x, hx, hatt⟩
-  obtain ⟨ht, r, hr, hc⟩ := hatt
+  intro u t r ⟨x, hx, hatt⟩
+  obtain ⟨ht, hr, hc⟩ := hatt
   by_cases hin : m.streams.contains r = true
   · right
     have hrm : r ∈ m.streams := List.contains_iff_mem.mp hin
     have hfu : f r = u := ((hb x hx).subs (r, u) hr).symm
-    refine ⟨r, hcl.2.1 r hrm, hfu, (m.topic : Nat), ?_⟩
-    have := hmid.seqM u
+    refine ⟨hcl.2.1 r hrm, ?_⟩
     have huU : u ∈ U := hfu ▸ hU r hrm
-    rw [if_pos huU] at this
-    rw [this]; simp
+    have h1 := hmid.seqM u
+    have h0 := hm.seqM u
+    rw [if_pos huU] at h1 h0
+    obtain ⟨X, hX⟩ := (publishError_ext pick s m).mono
+    rw [hX, seqOf_append, h0] at h1
+    have hx1 : seqOf u m.topic X = [Kind.error] := List.append_cancel_left h1
+    have := errCount_pos_of_seq u m.topic X (by rw [hx1]; simp)
+    rw [hX, errCount_append]; omega
   · left
     have hn : m.streams.contains r = false := by simpa using hin
     have ha := (scrub_att f x m.streams (hb x hx)).2 u t r ht hr hc hn
